@@ -239,14 +239,18 @@ def _mk_f(sig, leaves=("id",)):
         if kinds[i] == "pos" and (i + 1 == len(names) or kinds[i + 1] != "pos"):
             parts.append("/")
     body = " + ".join(f"{10 ** i} * {n}" for i, n in enumerate(names))
-    tr = {"id": "s", "double": "2 * s", "inc": "s + 1"}
+    tr = {"id": "s", "double": "2 * s", "inc": "s + 1", "vec": "jnp.array([s, 2 * s, s + 1])"}
     if list(leaves) == ["id"]:
         ret = "s"
+    elif list(leaves) == ["vec"]:
+        ret = "jnp.array([s, 2 * s, s + 1])"
     elif len(leaves) == 2 and leaves[1] == "double":
         ret = "(s, 2 * s)"
     else:
         ret = "{" + ", ".join(f"'k{j}': {tr[t]}" for j, t in enumerate(leaves)) + "}"
-    ns = {}
+    import jax.numpy as jnp
+
+    ns = {"jnp": jnp}
     exec(f"def f({', '.join(parts)}):\n    s = {body}\n    return {ret}\n", ns)  # noqa: S102
     return ns["f"]
 
